@@ -4,7 +4,7 @@
 
    External: the IANA zone database. `tz name unix` = UTC offset in seconds of zone `name` at instant `unix`
    (what Go's time.Time.In(loc) uses). It is an explicit argument everywhere; theorems quantify over it.
-   daysInMonth(t) is time.Date(year, month+1, 0, 12:00, UTC).Day() (after fix 6bed072; it used t.Location(),
+   daysInMonth(t) is time.Date(year, month+1, 0, 12:00, UTC).Day() (after fix 62b0975; it used t.Location(),
    which gave a 1-day December 1994 in zones that skipped 1994-12-31): the model uses the month length of
    (year, month); the harness compares it with the real daysInMonth on every instant. *)
 From AM Require Import Base.Prelude Model.Calendar.
